@@ -1,11 +1,11 @@
-mod c01;
-mod c13;
+mod c11;
+mod c12;
 
 fn main() {
     let args = vpc::Args::parse();
     match args.prop.as_str() {
-        "C01" => c01::run(&args),
-        "C13" => c13::run(&args),
+        "C11" => c11::run(&args),
+        "C12" => c12::run(&args),
         p => vpc::machinery_failure(&format!("property {p} is not served by this binary")),
     }
 }
